@@ -272,7 +272,7 @@ class EventMixin (object):
       eventType = event.__class__
       classCall = True
       if event.source is None: event.source = self
-    elif issubclass(event, Event):
+    elif isinstance(event, type) and issubclass(event, Event):
       # Check for early-out
       if event not in self._eventMixin_handlers:
         return None
@@ -287,7 +287,8 @@ class EventMixin (object):
       if event.source is None:
         event.source = self
     else:
-      classCall = False
+      # Neither an Event nor an Event subclass: nobody declares that
+      raise ReventError("%s is not an event" % (event,))
 
     #print("raise",event,eventType)
     if (self._eventMixin_events is not True
